@@ -956,6 +956,14 @@ def get_code(node: ast.AST | Range, source: str) -> str:
     return source[start_charno:end_charno]
 
 
+def _call_constant(function, args):
+    try:
+        return function(*args)
+    except ValueError as error:
+        # e.g. int("x"): not to be confused with the ValueError that means "value unknown"
+        raise ValueError(f"Cannot find a deterministic value: {error!r}") from error
+
+
 def literal_value(node: ast.AST) -> bool:
     try:
         return _literal_value(node)
@@ -1014,12 +1022,12 @@ def _literal_value(node: ast.AST) -> bool:
     if match_template(node, ast.Call(func=ast.Attribute(value=ast.Constant), keywords=[])):
         node_value = literal_value(node.func.value)
         args = [literal_value(arg) for arg in node.args]
-        return getattr(node_value, node.func.attr)(*args)
+        return _call_constant(getattr(node_value, node.func.attr), args)
 
     if isinstance(node, ast.Call):
         if isinstance(node.func, ast.Name) and node.func.id in constants.SAFE_CALLABLES:
             args = [literal_value(arg) for arg in node.args]
-            return getattr(builtins, node.func.id)(*args)
+            return _call_constant(getattr(builtins, node.func.id), args)
 
     return ast.literal_eval(node)
 
